@@ -121,6 +121,7 @@ Record page := {
   p_type : Z;               (* 0 data, 2 dictionary, 3 data v2 *)
   p_comp : nat;             (* compressed_page_size *)
   p_uncomp : nat;           (* uncompressed_page_size *)
+  p_ulen : nat;             (* length of the body once decompressed (levels included) *)
   p_crc_present : bool;
   p_crc_ok : bool;
   p_nvalues : nat;
@@ -275,8 +276,8 @@ Definition decode_page (rest : bytes) (lf : leaf) (codec : Z) (dict : list bytes
                         | Some c => (int32_to_crc c =? crc32 body)
                         | None => true
                         end in
-          let mk := fun nvalues nrows nnulls enc rep def values =>
-            {| p_offset := off; p_hlen := hlen; p_type := ptype; p_comp := comp; p_uncomp := uncomp;
+          let mk := fun ulen nvalues nrows nnulls enc rep def values =>
+            {| p_offset := off; p_hlen := hlen; p_type := ptype; p_comp := comp; p_uncomp := uncomp; p_ulen := ulen;
                p_crc_present := match crcf with Some _ => true | None => false end; p_crc_ok := crc_ok;
                p_nvalues := nvalues; p_nrows := nrows; p_nnulls := nnulls; p_encoding := enc;
                p_rep := rep; p_def := def; p_values := values |} in
@@ -286,7 +287,7 @@ Definition decode_page (rest : bytes) (lf : leaf) (codec : Z) (dict : list bytes
             | Some dh, Some data =>
                 let n := nat_of_field 1 dh in
                 match decode_values (l_type lf) (l_tlen lf) 0 [] n data with
-                | Some vs => Some (mk n None None (zdef (get_int 2 dh) 0) [] [] vs)
+                | Some vs => Some (mk (length data) n None None (zdef (get_int 2 dh) 0) [] [] vs)
                 | None => None
                 end
             | _, _ => None
@@ -304,7 +305,7 @@ Definition decode_page (rest : bytes) (lf : leaf) (codec : Z) (dict : list bytes
                     | Some (def, d2) =>
                         let nn := if (l_maxd lf =? 0)%nat then n else count_eq (N.of_nat (l_maxd lf)) def in
                         match decode_values (l_type lf) (l_tlen lf) enc dict nn d2 with
-                        | Some vs => Some (mk n None None enc rep def vs)
+                        | Some vs => Some (mk (length data) n None None enc rep def vs)
                         | None => None
                         end
                     end
@@ -332,7 +333,7 @@ Definition decode_page (rest : bytes) (lf : leaf) (codec : Z) (dict : list bytes
                         | Some data =>
                             let nn := if (l_maxd lf =? 0)%nat then n else count_eq (N.of_nat (l_maxd lf)) def in
                             match decode_values (l_type lf) (l_tlen lf) enc dict nn data with
-                            | Some vs => Some (mk n (Some nrows) (Some nnulls) enc rep def vs)
+                            | Some vs => Some (mk (rlen + dlen + length data)%nat n (Some nrows) (Some nnulls) enc rep def vs)
                             | None => None
                             end
                         end
@@ -495,6 +496,7 @@ Definition check_chunk (c : chunk) : list string :=
   check (sum (map p_nvalues dps) =? nat_of_field 5 md)%nat "num_values"
   ++ check (sumN (map (fun p => p_hlen p + p_comp p)%nat (c_pages c)) =? n_of_field 7 md) "total_compressed_size"
   ++ check (sumN (map (fun p => p_hlen p + p_uncomp p)%nat (c_pages c)) =? n_of_field 6 md) "total_uncompressed_size"
+  ++ check (forallb (fun p => (p_ulen p =? p_uncomp p)%nat) (c_pages c)) "uncompressed_page_size"
   ++ check (forallb p_crc_ok (c_pages c)) "page_crc"
   ++ check (forallb (fun p => in_z (p_encoding p) encs) dps) "encodings_list"
   ++ check (match dps with p :: _ => (p_offset p =? n_of_field 9 md) | [] => true end) "data_page_offset"
